@@ -26,6 +26,8 @@ def gen_load(w, r):
     p = pick(r, ps)
     if p is None:
         return None
+    if r.random() < w.cfg.get("p_read_fault", 0.06):
+        return {"op": "load_fault", "path": p, "fail_after": r.choice([r.randrange(0, 8), r.randrange(0, max(len(w.disk.files[p]), 1))])}
     w.next_id["twin"] += 1
     return {"op": "load", "path": p, "as": "T%d" % w.next_id["twin"], "flavor": r.choice(["path", "stream"])}
 
